@@ -1339,6 +1339,8 @@ void XMLReader::project()
     if (newxta)
         parse((const xmlChar*)utap_builtin_declarations(), S_DECLARATION);
     read();
+    if (begin(tag_t::IMPORTS))  // optional first child in the DTD; its content is not interpreted
+        read();
     declaration();
     while (templ())
         ;
